@@ -46,6 +46,8 @@ XFER = [
     sym('jalP', lambda l: I('jal', 'jal ' + l, rd=1, imm=('offset', l)), 'ref'),
     sym('beqz9', lambda l: I('beq', 'beqz x9, ' + l, rs1=9, rs2=0, imm=('offset', l)), 'ref'),
     sym('bgtu', lambda l: I('bltu', 'bgtu x5, x6, ' + l, rs1=6, rs2=5, imm=('offset', l)), 'ref'),
+    sym('bgtz9', lambda l: I('blt', 'bgtz x9, ' + l, rs1=0, rs2=9, imm=('offset', l)), 'ref'),
+    sym('blez8', lambda l: I('bge', 'blez x8, ' + l, rs1=0, rs2=8, imm=('offset', l)), 'ref'),
     sym('c.j', lambda l: L.cinst('c.j', imm=('offset', l)), 'ref'),
     sym('c.beqz', lambda l: L.cinst('c.beqz', rs1=8, imm=('offset', l)), 'ref'),
     # hand-written compressed transfers naming their label directly (like jal / beq do)
